@@ -73,7 +73,8 @@ def build_format(spec):
         for a in args:
             b.add_argument(a)
         return b.format
-    nb, mask, na = split
+    nb, mask, na = split[:3]
+    mid = split[3] if len(split) > 3 else 0
     base = ArgsFormatBuilder()
     for n in names[:nb]:
         base.add_command_name(n)
@@ -82,7 +83,10 @@ def build_format(spec):
             base.add_option(o)
     for a in args[:na]:
         base.add_argument(a)
-    b = ArgsFormatBuilder(base.format)
+    parent = base.format
+    if mid:  # a format that defines nothing itself between the base and the derived format (an anonymous level)
+        parent = ArgsFormatBuilder(parent).format
+    b = ArgsFormatBuilder(parent)
     for n in names[nb:]:
         b.add_command_name(n)
     for o, inb in zip(opts, mask):
